@@ -69,6 +69,8 @@ impl<T> Ptr<T> for ArcAnchor<T> {
 struct PStruct<P> {
     first: P,
     mid: i32,
+    /// plain multi-line text (block scalar without any anchor) between the wrapper fields
+    note: String,
     inner: PInner<P>,
     second: P,
     tail: Vec<P>,
@@ -210,6 +212,7 @@ where
 struct MStruct<T> {
     first: T,
     mid: i32,
+    note: String,
     inner: MInner<T>,
     second: T,
     tail: Vec<T>,
@@ -243,10 +246,11 @@ where
     }
     {
         let (px, py, py2) = mk();
-        let c = PStruct { first: px.share(), mid: 7, inner: PInner { z: py.share(), flag: true }, second: px.share(), tail: vec![py, py2, px] };
+        let c = PStruct { first: px.share(), mid: 7, note: "n1\nn2\n".into(), inner: PInner { z: py.share(), flag: true }, second: px.share(), tail: vec![py, py2, px] };
         let m = MStruct {
             first: x.clone(),
             mid: 7,
+            note: "n1\nn2\n".into(),
             inner: MInner { z: y.clone(), flag: true },
             second: x.clone(),
             tail: vec![y.clone(), y.clone(), x.clone()],
